@@ -50,7 +50,9 @@ def outputsOf (j : Json) : Except String (TypeTable × Except String (List Loc))
   let tt ← (← getArr j "tt").mapM parseTypeDesc
   let samples := (optList j "samples").toList.map fun s => s.getNat?.toOption
   let C := mkCls (← parseCls j)
-  let m := runModel C tt segs samples []
+  -- the arguments of the statement's inputs, if it has any (value trees as in layer 2)
+  let args ← (optList j "args").toList.mapM parseGoVal
+  let m := runModel C tt segs samples args
   pure (tt, match m.prep, m.bind with
     | .error e, _ => .error ("prepare:" ++ e)
     | _, .error e => .error ("bind:" ++ e)
